@@ -66,3 +66,124 @@ func H_C19_text_from_html() {
 	}
 	vReach("end")
 }
+
+// H_C15_html_markdown_structure: from HTML source to Markdown: headings keep their level, list items their order,
+// nesting depth and ordered/unordered kind (also when an ordered list holds an unordered one or vice versa), tables
+// come out as pipe tables.
+//
+//symgo:harness prop=C15 kernel=K3-html-markdown-from-source
+//symgo:desc HTML source with an <h2>/<h4> heading (enumerated), an outer list <ol> or <ul> (enumerated) of two items whose first item holds a nested <ol> or <ul> (enumerated independently) of one item, and a 2x2 table with a pipe in a cell; parsed by the real HTML parser; Markdown with NavigationExclusionNone: the heading is '#' x level + text; list lines, in order: outer item, nested item indented by two spaces, outer item - each with "<number>. " if its own list is ordered and "- " if it is unordered; the table is one pipe table read back by the reference GFM reader
+func H_C15_html_markdown_structure() {
+	hl := []int{2, 4}[vAnyIntIn(0, 1)]
+	outer := []string{"ol", "ul"}[vAnyIntIn(0, 1)]
+	inner := []string{"ol", "ul"}[vAnyIntIn(0, 1)]
+	h := string(rune('0' + hl))
+	src := `<!DOCTYPE html><html><head><title>T</title></head><body><h` + h + `>HeadX</h` + h + `>` +
+		`<` + outer + `><li>ItemA<` + inner + `><li>ItemB</li></` + inner + `></li><li>ItemC</li></` + outer + `>` +
+		`<table><tr><th>c1</th><th>c2</th></tr><tr><td>a|b</td><td>d</td></tr></table></body></html>`
+	r, err := OpenReader(strings.NewReader(src))
+	vAssert("parses", err == nil && r != nil)
+	md, merr := r.MarkdownWithOptions(ExtractOptions{NavigationExclusion: NavigationExclusionNone})
+	vAssert("markdown-no-error", merr == nil)
+	lines := strings.Split(md, "\n")
+	has := func(s string) int {
+		for i, ln := range lines {
+			if ln == s {
+				return i
+			}
+		}
+		return -1
+	}
+	vAssert("heading-level-kept", has(strings.Repeat("#", hl)+" HeadX") >= 0)
+	item := func(kind string, indent string, text string) int {
+		for i, ln := range lines {
+			if !strings.HasPrefix(ln, indent) || strings.HasPrefix(ln, indent+" ") {
+				continue
+			}
+			rest := ln[len(indent):]
+			if kind == "ul" {
+				if rest == "- "+text {
+					return i
+				}
+				continue
+			}
+			d := 0
+			for d < len(rest) && rest[d] >= '0' && rest[d] <= '9' {
+				d++
+			}
+			if d > 0 && rest[d:] == ". "+text {
+				return i
+			}
+		}
+		return -1
+	}
+	a, b, c := item(outer, "", "ItemA"), item(inner, "  ", "ItemB"), item(outer, "", "ItemC")
+	vAssert("outer-items-keep-their-kind", a >= 0 && c >= 0)
+	vAssert("nested-item-keeps-depth-and-its-own-kind", b >= 0)
+	vAssert("list-order", a < b && b < c)
+	k := -1
+	for i, ln := range lines {
+		if strings.HasPrefix(ln, "|") {
+			k = i
+			break
+		}
+	}
+	vAssert("table-present", k >= 0)
+	e := k
+	for e < len(lines) && strings.HasPrefix(lines[e], "|") {
+		e++
+	}
+	got, ok := vMarkdownTable(lines[k:e])
+	vAssert("table-is-a-2x2-pipe-table", ok && len(got) == 2 && len(got[0]) == 2 && len(got[1]) == 2)
+	vAssert("table-cell-texts", got[0][0] == "c1" && got[0][1] == "c2" && got[1][0] == "a|b" && got[1][1] == "d")
+	vReach("end")
+}
+
+// vMarkdownTable: header row, delimiter row, body rows of a pipe table ("\|" is a literal pipe).
+func vMarkdownTable(lines []string) ([][]string, bool) {
+	split := func(line string) []string {
+		line = strings.TrimSpace(line)
+		line = strings.TrimPrefix(line, "|")
+		if strings.HasSuffix(line, "|") && !strings.HasSuffix(line, "\\|") {
+			line = line[:len(line)-1]
+		}
+		var cells []string
+		cur := ""
+		for i := 0; i < len(line); i++ {
+			if line[i] == '\\' && i+1 < len(line) && line[i+1] == '|' {
+				cur += "|"
+				i++
+				continue
+			}
+			if line[i] == '|' {
+				cells = append(cells, strings.TrimSpace(cur))
+				cur = ""
+				continue
+			}
+			cur += string(line[i])
+		}
+		return append(cells, strings.TrimSpace(cur))
+	}
+	if len(lines) < 2 {
+		return nil, false
+	}
+	header := split(lines[0])
+	delim := split(lines[1])
+	if len(delim) != len(header) {
+		return nil, false
+	}
+	for _, d := range delim {
+		if len(strings.Trim(d, "-:")) != 0 || !strings.Contains(d, "-") {
+			return nil, false
+		}
+	}
+	rows := [][]string{header}
+	for _, ln := range lines[2:] {
+		c := split(ln)
+		for len(c) < len(header) {
+			c = append(c, "")
+		}
+		rows = append(rows, c[:len(header)])
+	}
+	return rows, true
+}
